@@ -14,6 +14,7 @@ CONSTANTS
   ShareEffect = "read_scales_temperature"
   RADS = {8}
   GMS = {64}
+  TableEnds = "nearest"
   Slicing = "layer"
   Export = FALSE
 PROPERTY ReadsAreRepeatable
